@@ -68,7 +68,10 @@ def gen_ident(rng, o, plain=False):
 
 def gen_path(rng, o, maxlen=None):
     n = rng.randint(2, maxlen or o.max_path)
-    t = gen_ident(rng, o, plain=True)
+    # the root of a path may carry a namespace (ns.a/b/c)
+    t = gen_ident(rng, o, plain=not o.namespaces or rng.random() > 0.15)
+    if t[2] and rng.random() < 0.5:
+        t = ("id", t[1], rng.choice(NAMESPACES))
     for _ in range(n - 1):
         t = ("attr", t, rng.choice(ATTRS))
     return t
@@ -119,7 +122,7 @@ def gen_lambda(rng, o, depth):
     elif rng.random() < 0.5:
         owner = gen_path(rng, o, 2)
     else:
-        owner = gen_ident(rng, o, plain=True)
+        owner = gen_ident(rng, o, plain=not o.namespaces or rng.random() > 0.15)
     r = rng.random()
     if r < 0.15:
         return ("lam", owner, "any", None, None)
